@@ -34,7 +34,9 @@ REQUIRED = ["entries_injective", "einv_fresh", "bit_set_get", "bit_total", "serv
             "slots_unique_across_url_changes", "entry_update_independent_of_base", "fact_entry_update_key",
             # credentialStatus syntax check in front of the revocation logic (NutsProofs.Props.C11CredStatus)
             "validated_credential_entries_wellformed", "verify_wire_relevant_entries_have_index", "malformed_status_refused_before_revocation_logic",
-            "fact_default_validator_chain", "fact_validate_credential_status_chain"]
+            "fact_default_validator_chain", "fact_validate_credential_status_chain",
+            # REPROCESS path (NutsProofs.Props.C11Reprocess)
+            "reprocess_same_as_delivery", "reprocessed_revocation_effective", "reprocess_other_content_is_inert", "fact_reprocess_callback_switch"]
 
 ENTRY_RE = re.compile(r"(n\d+/\S+/\d+) (\S+) wf=(\w+)")
 
@@ -501,6 +503,18 @@ def aoracle(ops, impl):
                 stored.add(op["subject"])
             if not honest and line == "adeliver done":
                 report("C11:forged-revocation-accepted:names-another-issuer-than-id-prefix", ops[i][:300], i)
+        elif kind == "areprocess":
+            honest = op["subject"].split("#")[0] == op["issuer"]
+            is_rev = op.get("ct") == "application/ld+json;type=revocation" and not op.get("nopayload")
+            stats[f"reprocess:{'revocation' if is_rev else 'other-or-empty'}:{'honest' if honest else 'other-party'}:{op.get('fault') or 'healthy'}"] += 1
+            if is_rev and honest and not op.get("fault"):
+                if line != "areprocess failed=false":
+                    report("C11:reprocessed-revocation-not-stored", line, i)
+                stored.add(op["subject"])
+            if is_rev and not honest and line != "areprocess failed=true":
+                report("C11:forged-revocation-accepted:names-another-issuer-than-id-prefix", ops[i][:300], i)
+            if not is_rev and line != "areprocess failed=false":
+                report("C11:reprocess-of-other-content-fails", line, i)
         elif kind == "averify":
             stats["verify"] += 1
             if (line == "averify revoked") != (op["id"] in stored):
@@ -708,7 +722,7 @@ def run_verifier_harness(ctx):
 
 def run(ctx):
     facts = ctx.facts()
-    thms = ctx.build_and_audit(["NutsProofs.Props.C11", "NutsProofs.Props.C11Wire", "NutsProofs.Props.C11ValidAt", "NutsProofs.Props.C11Rebase", "NutsProofs.Props.C11CredStatus"])
+    thms = ctx.build_and_audit(["NutsProofs.Props.C11", "NutsProofs.Props.C11Wire", "NutsProofs.Props.C11ValidAt", "NutsProofs.Props.C11Rebase", "NutsProofs.Props.C11CredStatus", "NutsProofs.Props.C11Reprocess"])
     for r in REQUIRED:
         if not any(t.endswith("Props." + r) for t in thms):
             ctx.oblige("thm-present:" + r, False, "theorem missing or its module does not build")
